@@ -54,6 +54,8 @@ def enc(v):
         return {"t": "float", "v": v.hex() if math.isfinite(v) else repr(v)}
     if isinstance(v, str):
         return {"t": "str", "v": v}
+    if isinstance(v, (bytes, bytearray)):
+        return {"t": type(v).__name__, "v": bytes(v).hex()}
     if isinstance(v, tuple):
         return {"t": "tuple", "v": [enc(x) for x in v]}
     if isinstance(v, list):
@@ -80,6 +82,10 @@ def dec(d):
         return float.fromhex(s) if "x" in s else float(s)
     if t == "str":
         return d["v"]
+    if t == "bytes":
+        return bytes.fromhex(d["v"])
+    if t == "bytearray":
+        return bytearray.fromhex(d["v"])
     if t == "tuple":
         return tuple(dec(x) for x in d["v"])
     if t == "list":
